@@ -289,6 +289,16 @@ class Source:
                     raise Unsupported(f'setter {nm} not found')
                 node = found
                 continue
+            if '#' in p:
+                # the k-th (0-based, source order) function of that name inside the current node: closures defined
+                # several times under one name (FilterFactory.make_filter.handler#0..2)
+                nm, k = p.split('#')
+                cands = sorted([n for n in ast.walk(node) if isinstance(n, ast.FunctionDef) and n.name == nm and n is not node],
+                               key=lambda n: n.lineno)
+                if int(k) >= len(cands):
+                    raise Unsupported(f'function {p} not found')
+                node = cands[int(k)]
+                continue
             # search direct body first, then nested statement bodies (if/try at module level)
             for n in ast.walk(node) if node is tree else ast.iter_child_nodes(node):
                 if isinstance(n, (ast.FunctionDef, ast.ClassDef, ast.AsyncFunctionDef)) and n.name == p:
@@ -1048,6 +1058,9 @@ class X:
                 return type(a)(simp(out))
         if isinstance(op, ast.Mod) and isinstance(a, VStr):
             return self.fresh_str('fmt')  # %-formatting only used for messages
+        r = self.contract.binop_hook(self, op, a, b)
+        if r is not None:
+            return r
         raise Unsupported(f'operator {type(op).__name__} on {type(a).__name__},{type(b).__name__}')
 
     def ex_Compare(self, e):
@@ -1436,6 +1449,9 @@ class Contract:
         return None
 
     def compare_hook(self, X, op, a, b):
+        return None
+
+    def binop_hook(self, X, op, a, b):
         return None
 
     def contains_hook(self, X, container, item):
